@@ -192,10 +192,13 @@ func c19Registers(c *run.Ctx, idx uint64) {
 	q := &c19Call{kind: r.Intn(4), spread: generate.GradientSpread(r.Intn(4)), shape: generate.GradientShape(r.Intn(2))}
 	c19GenGeometry(r, q, r.LogUniform(1e-3, 1e4))
 	n := r.Pick(0, 1, 2, 2, 3, 5, 10, 30, 57, 58, 59, 60, 64, 100, 255, 256, 257, 270, 300, 314, 315, r.Range(0, 300), r.Range(0, 70))
-	q.stops = make([]generate.GradientStop, n)
+	// the stop list is the caller's: a slice with spare capacity, used again afterwards
+	spare := r.Pick(0, 0, 1, 5)
+	q.stops = make([]generate.GradientStop, n, n+spare)
 	for i := range q.stops {
 		q.stops[i] = generate.GradientStop{Offset: float32(r.Uniform(-0.2, 1.2)), Color: gen.AnyColorModel(r)}
 	}
+	stopsBefore := append([]generate.GradientStop(nil), q.stops[:cap(q.stops)]...)
 	// destination under test behind a recorder
 	var real ivg.Destination
 	onRenderer := r.Bool()
@@ -255,6 +258,12 @@ func c19Registers(c *run.Ctx, idx uint64) {
 			dd[k] = v
 		}
 		c.Violate(sig, dd)
+	}
+	for i, st := range q.stops[:cap(q.stops)] {
+		if st != stopsBefore[i] {
+			fail("caller-stop-list-modified", map[string]interface{}{"index": i, "length": n, "capacity": cap(q.stops)})
+			return
+		}
 	}
 	base, baseOK := c19Base()
 	if !baseOK {
